@@ -123,7 +123,8 @@ def _case(draw, tier):
     cfg["units"] = draw(st.sampled_from([1, 1, 2, 3]))
     shape = (int(np.prod(sizes)), cfg["units"])
   elif layer == "pwl":
-    cfg = draw(S.pwl_config(max_k=12 if big else 8))
+    cfg = draw(S.pwl_config(max_k=12 if big else 8,
+                            spacings=S.SPACINGS_FINE))
     cfg["impute"] = draw(st.sampled_from(
         ["none", "none", "learned", "learned", "learned@keypoint", "constant",
          "tensor"]))
